@@ -20,6 +20,10 @@ def scope_of(prog):
         if p in indep:
             census.append(p)
             continue
+        if p in getattr(prog, "inlined", {}):
+            # a new private helper: its code is analysed where it was expanded, with the callers' guards in force
+            census.append(p)
+            continue
         bodies.append(p)
     return panicfree.Scope(prog, bodies, census)
 
